@@ -90,6 +90,8 @@ class Tree(object):
         self.before_write = None     # callable(op, path, client) may raise
         self.children_order = None   # callable(path, sorted_list) -> list
         self.writes = 0
+        self.writelog = None         # list -> records (op, path, value, acl,
+                                     #                 owner) per mutation
 
     # -- helpers ----------------------------------------------------------
     def now(self):
@@ -135,6 +137,38 @@ class Tree(object):
     def _log(self, opname, path, client, owner):
         self.audit.append((opname, path, client.sid if client else None,
                            owner))
+        if self.writelog is not None:
+            node = self.nodes.get(path)
+            self.writelog.append((
+                opname, path, node.data if node else None,
+                node.acl if node else None, owner))
+
+    def apply_write(self, record):
+        """Re-apply one writelog record as pure data (no hooks, no watches).
+        """
+        opname, path, value, acl, owner = record
+        if opname == 'create':
+            parent = self.nodes[_parent(path)]
+            self.zxid += 1
+            parent.seq += 1
+            self.nodes[path] = _Node(value, acl, owner, self.now(), self.zxid)
+            parent.children.add(_base(path))
+            parent.cversion += 1
+        elif opname == 'set':
+            node = self.nodes[path]
+            self.zxid += 1
+            node.data = value
+            node.version += 1
+            node.mtime = self.now()
+        elif opname == 'set_acls':
+            self.nodes[path].acl = acl
+        elif opname in ('delete', 'expire'):
+            del self.nodes[path]
+            parent = self.nodes[_parent(path)]
+            parent.children.discard(_base(path))
+            parent.cversion += 1
+        else:
+            raise ValueError(opname)
 
     # -- mutations (called by clients) -------------------------------------
     def create(self, client, path, value, acl, ephemeral, sequence):
